@@ -516,6 +516,9 @@ def jobs(tier):
     js = [{"kind": "single", "deck": d} for d in decks]
     js += [{"kind": "pairs", "deck": d, "n": 400 if tier == "thorough" else 40} for d in decks]
     js.append({"kind": "nonpackage"})
+    if tier == "thorough":
+        # coverage-guided supplement (atheris): 4 independent campaigns with different libFuzzer seeds
+        js += [{"kind": "atheris", "i": i, "seconds": 90} for i in range(4)]
     return js
 
 
@@ -523,6 +526,8 @@ FORMS = ["zip", "stream", "dir"]
 
 
 def run_job(job, seed, tier, rec, known):
+    if job["kind"] == "atheris":
+        return run_atheris(job, seed, rec, known)
     if job["kind"] == "nonpackage":
         fails = run_plain(lambda c: run_nonpackage(c, rec), nonpackage_cases(tier), rec=rec, known=known)
         return fails
@@ -548,6 +553,40 @@ def run_job(job, seed, tier, rec, known):
         t = f["case"]
         f["case"] = {"deck": deck, "faults": [locs[t[0]], locs[t[1]]], "form": t[2]}
     return fails
+
+
+def run_atheris(job, seed, rec, known):
+    """coverage-guided campaign in a subprocess; unavailable atheris is recorded, never an error"""
+    import json
+    import subprocess
+    import sys
+    from vlib.core import VERIF
+    target = os.path.join(VERIF, "fuzz", "c16_target.py")
+    if not os.path.isdir(os.path.join(VERIF, ".deps", "atheris")):
+        rec.cls("atheris:unavailable")
+        return []
+    tmp = tempfile.mkdtemp(prefix="verif-c16fz-")
+    try:
+        out = os.path.join(tmp, "out.json")
+        cdir = os.path.join(tmp, "corpus")
+        os.makedirs(cdir)
+        env = dict(os.environ, PYTHONHASHSEED="0")
+        subprocess.run([sys.executable, target, out, str(job["seconds"]), str(seed % 100000 + 1), cdir],
+                       env=env, capture_output=True, timeout=job["seconds"] + 120)
+        if not os.path.exists(out):
+            rec.cls("atheris:no-output")
+            return []
+        res = json.load(open(out))
+        rec.note_enum(res["runs"], res["distinct_cases"],
+                      sample={"atheris_campaign": job["i"], "runs": res["runs"], "distinct_cases": res["distinct_cases"]})
+        rec.cls("atheris:campaign")
+        rec.extra["atheris_executions"] = rec.extra.get("atheris_executions", 0) + res["runs"]
+        return [v for v in res["violations"] if v["key"] not in known]
+    except subprocess.TimeoutExpired:
+        rec.cls("atheris:timeout")
+        return []
+    finally:
+        shutil.rmtree(tmp, ignore_errors=True)
 
 
 def replay(case):
